@@ -17,6 +17,7 @@ exists (`complete_infeasible`).  Configuration covered by the proof: plain multi
 Termination and the duplicate-free fringe: Props/C01t.lean, Props/C01b.lean.
 The cache and the dominance checker: Props/C09b.lean, Props/C10b.lean. -/
 set_option linter.unusedSectionVars false
+set_option linter.unusedVariables false
 namespace Ddo.C01
 variable {S : Type} [DecidableEq S]
 
@@ -82,25 +83,21 @@ theorem process_inv (hPhi : ∀ (c : SubP S) (u : Int), Phi { c with ub := u } =
         simp only [hxe, Bool.false_eq_true, if_false]
         have hxe' : x.isExact = false := by simpa using hxe
         have hC := hcut hxe'
-        obtain ⟨e1, e2, _, _, e5⟩ := enqueue_false_spec ((st.updateBest r).updateBest x) N.ub x.cutset
+        obtain ⟨e1, e2, _, _, e5⟩ := enqueue_false_spec ((st.updateBest r).updateBest x) x.cutset
         rw [e1, e2]
         have hfr : ((st.updateBest r).updateBest x).fringe = st.fringe := f2.trans f1
         refine ⟨?_, ?_, hlb2, hsol2, ?_⟩
         · intro c hc
           rcases (e5 c).mp hc with h | ⟨c0, hc0, rfl, _⟩
           · rw [hfr] at h; exact hgoodRest c h
-          · intro y hy; rw [hPhi] at hy; exact hC.good c0 hc0 y hy
+          · exact hC.good c hc0
         · intro c hc
           rcases (e5 c).mp hc with h | ⟨c0, hc0, rfl, _⟩
           · rw [hfr] at h; exact ubOk_mono Phi (Int.le_trans hge1 hge2) (hubRest c h)
-          · -- capped bound: below the node's own bound and below the parent's
+          · -- the node keeps the bound of its own diagram (no cap since the repair of D14)
             intro y hy hgt
-            have hy' : Phi c0 = some y := by rw [hPhi] at hy; exact hy
             have h1 : y > (st.updateBest r).bestLb := by omega
-            have hcub := hC.ub c0 hc0 y hy' h1
-            obtain ⟨xN, hxN, hle⟩ := hC.sub c0 hc0 y hy'
-            have hNub := hinv.ubOk N List.mem_cons_self xN hxN (by omega)
-            simp only; omega
+            exact hC.ub c hc0 y hy h1
         · intro hgt
           have h1 : opt > (st.updateBest r).bestLb := by omega
           have h0 : opt > st.bestLb := by omega
@@ -116,7 +113,7 @@ theorem process_inv (hPhi : ∀ (c : SubP S) (u : Int), Phi { c with ub := u } =
             have hyeq : y = opt := by omega
             subst hyeq
             have hcu := hC.ub c0 hc0 y hy h1
-            refine ⟨{ c0 with ub := min c.ub c0.ub }, (e5 _).mpr (Or.inr ⟨c0, hc0, rfl, by omega⟩), by rw [hPhi]; exact hy, by simp only; omega⟩
+            exact ⟨c0, (e5 _).mpr (Or.inr ⟨c0, hc0, rfl, by omega⟩), hy, hcu⟩
           · exact ⟨c, (e5 c).mpr (Or.inl (by rw [hfr]; exact e)), hP, hU⟩
 
 /-- the root node satisfies the invariant: `Phi root = opt` by definition of the optimum -/
